@@ -40,9 +40,31 @@ def trace_check(log, started, what):
 def run_case(case):
     b = F.execute(case)
     try:
-        return _judge(case, b)
+        res = _judge(case, b)
     finally:
         b.box.close()
+    if b.R['final'] == 'save_failed' and not F.GLOBS[case['glob']].get('save_raises'):
+        # the save fails inside the cassette (the serializer refuses a value): "not at all" must hold in a store with real files too
+        bf = F.execute(case, cas='file')
+        try:
+            more = _judge(case, bf)
+        finally:
+            bf.box.close()
+        for v in more['viol']:
+            v['sig'] = 'file-cassette:' + v['sig']
+            res['viol'].append(v)
+        res['evals'] += more['evals']
+        res['extra'] = {'cases_repeated_on_file_cassette': 1}
+    return res
+
+
+def _stored(b, candidates):
+    """ids for which the store holds anything at all (a whole recording or debris)."""
+    if b.box.kind == 'mem':
+        return sorted(b.box.cassette._recordings)
+    import os
+    names = os.listdir(b.box.dir)
+    return sorted(rid for rid in candidates if any(rid.split('/')[-1] in fn for fn in names))
 
 
 def _judge(case, b):
@@ -57,14 +79,20 @@ def _judge(case, b):
         viols.append(viol('finalisation:expected-%s:got-%s' % (exp_fin, fin[0] if fin else None),
                           'finalisation differs from the reference (saved only if every interception was captured and the sampling policy keeps it)',
                           R['final'], r1.log))
-    stored = sorted(b.box.cassette._recordings)
+    created = [e[1] for e in r1.log if e[0] == 'create'] + [e[1] for e in (b.r2.log if b.r2 is not None else []) if e[0] == 'create']
+    stored = _stored(b, created)
     if R['final'] == 'saved' and r1.rec_id not in stored:
         viols.append(viol('store:missing', 'a recording handed to save is not in the store', r1.rec_id, stored))
     if R['final'] != 'saved' and r1.rec_id in stored:
         viols.append(viol('store:unexpected', 'a recording that must not be persisted is in the store (final=%s)' % R['final'], [], stored))
     # whole: the stored recording holds every interception that executed
+    rec = None
     if r1.rec_id in stored:
-        rec = b.box.fresh().get_recording(r1.rec_id)
+        try:
+            rec = b.box.fresh().get_recording(r1.rec_id)
+        except Exception as e:
+            viols.append(viol('store:debris:%s' % type(e).__name__, 'the store holds something for this id that is not a whole recording', 'a recording or nothing', repr(e)))
+    if rec is not None:
         keys = list(rec.get_all_keys())
         n_in = len([k for k in keys if k.startswith('input')])
         n_res = len([k for k in keys if k.startswith('output') and k.endswith('result')])
@@ -82,9 +110,13 @@ def _judge(case, b):
             viols.append(viol('second:raised:%s' % type(b.r2.exc).__name__, 'fault-free operation after the faulty one raised', None, repr(b.r2.exc)))
     # every stored recording that is not flagged incomplete replays without a missing-key error
     replayed = 0
-    for rid in sorted(b.box.cassette._recordings):
+    for rid in stored:
         fresh = b.box.fresh()
-        md = fresh.get_recording_metadata(rid)
+        try:
+            md = fresh.get_recording_metadata(rid)
+        except Exception as e:
+            viols.append(viol('store:debris:%s' % type(e).__name__, 'the store holds something for this id that is not a whole recording', 'a recording or nothing', repr(e)))
+            continue
         if md.get('_tape_recorder_incomplete_recording', False):
             continue
         prog = b.prog if rid == r1.rec_id else dict(F.CLEAN2)
